@@ -536,20 +536,26 @@ theorem C13_shadowing_witness (cb : QVal → PyVal) :
         .ok (.keras "Activation" [("name", .str "a"), ("activation", .str "hard_sigmoid")]) := by
   constructor <;> rfl
 
-/-! ## `get_config` that raises: a plain Python value where the class calls `.tolist()`
+/-! ## `get_config` never raises: plain Python values where the class used to call `.tolist()`
 
 `quantized_bits(alpha="auto_po2", post_training_scale=[0.5])` (or `=0.5`) is accepted by the
-constructor (`self.scale = np.array(post_training_scale)`) and quantizes, but
-`get_config` writes `self.post_training_scale.tolist()`: AttributeError for a list / float, so
-`to_json`, `save` and `clone_model` raise for every model that holds such a quantizer
-(known/C13.json C13-qbits-post_training_scale-not-numpy).  With a numpy array / numpy scalar — what
-`from_config` itself produces — all routes work. -/
+constructor (`self.scale = np.array(post_training_scale)`) and quantizes.  `get_config` used to
+write `self.post_training_scale.tolist()`: AttributeError for a list / float, so `to_json`, `save`
+and `clone_model` raised for every model that held such a quantizer (former finding
+C13-qbits-post_training_scale-not-numpy).  It now writes
+`np.asarray(self.post_training_scale).tolist()`: no class of the tables calls a numpy method on a
+constructor argument any more (`QSpec.tolist = []` everywhere, compared with the live classes on
+every run), and serialisation is total. -/
 
-/-- the (class, argument) pairs whose `get_config` entry goes through `.tolist()` — complete list -/
+/-- the (class, argument) pairs whose `get_config` entry goes through a bare `.tolist()` — complete
+    list: none -/
 def tolistOptions : List (String × String) :=
   qSpecs.flatMap fun s => s.tolist.map fun k => (s.name, k)
 
-theorem C13_tolist_options_list : tolistOptions = [("quantized_bits", "post_training_scale")] := by
+theorem C13_tolist_options_list : tolistOptions = [] := by
+  decide
+
+theorem qSpecs_no_tolist : ∀ s ∈ qSpecs, s.tolist = [] := by
   decide
 
 /-- `quantized_bits(4, alpha="auto_po2", post_training_scale=<[1/2]>)`; `native` says whether the
@@ -573,18 +579,23 @@ def densePts (native : List String) : Layer :=
      else if p.name == "bias_initializer" then (p.name, .init (.keras zerosInit))
      else (p.name, p.default)⟩
 
-/-- the defect: with a plain Python list the quantizer's, the layer's and the model's serialisation
-    raise, so every route fails … -/
-theorem C13_post_training_scale_native_counterexample (cb : QVal → PyVal) :
-    qGetConfigRaises qs_quantized_bits (qbPts ["post_training_scale"]) = true ∧
-      layerGetConfigRaises (env cb) ls_QDense (densePts ["post_training_scale"]) = true ∧
-      rebuild (env cb) [⟨.q (densePts ["post_training_scale"]), [0]⟩] = .error .attributeError := by
-  refine ⟨by decide, rfl, ?_⟩
-  apply rebuild_of_raise
-  rfl
+/-- REGRESSION WITNESS (former finding C13-qbits-post_training_scale-not-numpy, repaired): with a
+    plain Python list the quantizer's, the layer's and the model's serialisation used to raise
+    (`rebuild … = .error .attributeError`); now nothing raises and every route rebuilds the layer
+    with the same class, forwarded arguments and read arguments — the reloaded quantizer holds the
+    numpy array `from_config` makes of the list … -/
+theorem C13_post_training_scale_native_fixed_witness (cb : QVal → PyVal) :
+    qGetConfigRaises qs_quantized_bits (qbPts ["post_training_scale"]) = false ∧
+      layerGetConfigRaises (env cb) ls_QDense (densePts ["post_training_scale"]) = false ∧
+      ∃ L', rebuild (env cb) [⟨.q (densePts ["post_training_scale"]), [0]⟩] = .ok [⟨.q L', [0]⟩] ∧
+        L'.cls = (densePts ["post_training_scale"]).cls ∧
+        L'.kwargs = (densePts ["post_training_scale"]).kwargs ∧
+        L'.arg "kernel_quantizer" = .q (.obj (qbPts [])) := by
+  refine ⟨by decide, rfl, _, rfl, rfl, rfl, rfl⟩
 
-/-- … while the same quantizer holding a numpy array is rebuilt by every route into a model with
-    the same class, forwarded arguments and read arguments (same predictions for every semantics) -/
+/-- … exactly as the same quantizer holding a numpy array always was: rebuilt by every route into a
+    model with the same class, forwarded arguments and read arguments (same predictions for every
+    semantics) -/
 theorem C13_post_training_scale_numpy_witness (cb : QVal → PyVal) :
     ∃ L', rebuild (env cb) [⟨.q (densePts []), [0]⟩] = .ok [⟨.q L', [0]⟩] ∧
       L'.cls = (densePts []).cls ∧ L'.kwargs = (densePts []).kwargs ∧
@@ -592,14 +603,30 @@ theorem C13_post_training_scale_numpy_witness (cb : QVal → PyVal) :
       L'.arg "kernel_quantizer" = .q (.obj (qbPts [])) := by
   refine ⟨_, rfl, rfl, rfl, rfl, rfl⟩
 
-/-- partial: a quantizer whose arguments are numpy values where the class calls numpy methods
-    never makes `get_config` raise … -/
-theorem C13_get_config_total_partial (s : QSpec) (q : QObj) (h : q.native = []) :
+/-- `get_config` of every quantizer class of the tables is total: whatever Python type the
+    arguments have (the hypothesis `q.native = []` of the former `C13_get_config_total_partial`
+    is gone) … -/
+theorem C13_get_config_total (s : QSpec) (hs : s ∈ qSpecs) (q : QObj) :
     qGetConfigRaises s q = false :=
-  qGetConfigRaises_of_numpy s q h
+  qGetConfigRaises_of_no_tolist s q (qSpecs_no_tolist s hs)
 
-/-- … nor does a layer all of whose arguments are such … -/
-theorem C13_layer_get_config_total_partial (E : Env) (spec : LSpec) (L : Layer)
+/-- … so is `get_config` of every layer, whatever quantizers, activations and initializers it holds
+    (formerly `C13_layer_get_config_total_partial`, for numpy-valued arguments only) … -/
+theorem C13_layer_get_config_total (cb : QVal → PyVal) (spec : LSpec) (L : Layer) :
+    layerGetConfigRaises (env cb) spec L = false :=
+  layerGetConfigRaises_of_no_tolist (env cb) qSpecs_no_tolist spec L
+
+/-- … and of every model: the serialisation step of `to_json` / `save` / `clone_model` never
+    raises, a route is Keras' deserialiser applied to the written config -/
+theorem C13_model_get_config_total (cb : QVal → PyVal) (m : Model) :
+    modelGetConfigRaises (env cb) m = false ∧
+      rebuild (env cb) m = modelFromConfig (env cb) (modelGetConfig (env cb) m) := by
+  have h := modelGetConfigRaises_of_no_tolist (env cb) qSpecs_no_tolist m
+  exact ⟨h, rebuild_of_no_raise (env cb) m h⟩
+
+/-- for ANY tables (a class calling `.tolist()` on an argument included): a layer all of whose
+    arguments are numpy values where the class calls numpy methods does not raise -/
+theorem C13_layer_get_config_numpy (E : Env) (spec : LSpec) (L : Layer)
     (h : ∀ p ∈ spec.params, (L.arg p.name).numpy = true) : layerGetConfigRaises E spec L = false :=
   layerGetConfigRaises_of_numpy E spec L h
 
@@ -612,6 +639,15 @@ theorem C13_model_rebuild_predict_partial {W V : Type} [Inhabited V] (E : Env) (
         predict E S m' ws inputs = predict E S m ws inputs := by
   rw [rebuild_of_no_raise E m hr]
   exact C13_model_roundtrip_predict_partial E m h
+
+/-- with the library's tables the serialisation hypothesis is void (`C13_model_get_config_total`):
+    every model whose nodes satisfy `NodeOK` is rebuilt by every route and predicts identically -/
+theorem C13_model_rebuild_predict_tables_partial {W V : Type} [Inhabited V] (cb : QVal → PyVal)
+    (m : Model) (h : ∀ n ∈ m, NodeOK (env cb) n.node) :
+    ∃ m', rebuild (env cb) m = .ok m' ∧
+      ∀ (S : Sem W V) (ws : Nat → W) (inputs : List V),
+        predict (env cb) S m' ws inputs = predict (env cb) S m ws inputs :=
+  C13_model_rebuild_predict_partial (env cb) m h (C13_model_get_config_total cb m).1
 
 /-- the non-vacuity model again, with the serialisation step -/
 example {W V : Type} [Inhabited V] (cb : QVal → PyVal) :
